@@ -26,6 +26,7 @@ type treeFetcher struct {
 	workDir  string
 	snapshot string // fsdump of the arena taken after the fetch (the model's input)
 	arena    string
+	noSnap   bool
 }
 
 func (f *treeFetcher) FetchSourcePackage(ctx context.Context, sourceType string, u *url.URL, targetDir string) (sourcebundle.FetchSourcePackageResponse, error) {
@@ -48,7 +49,9 @@ func (f *treeFetcher) FetchSourcePackage(ctx context.Context, sourceType string,
 			syscall.Mkfifo(p, 0644)
 		}
 	}
-	f.snapshot = snapshotNS(f.arena)
+	if !f.noSnap {
+		f.snapshot = snapshotNS(f.arena)
+	}
 	return sourcebundle.FetchSourcePackageResponse{}, nil
 }
 
@@ -269,6 +272,34 @@ func init() {
 							fail("C03", nd.Path+" is not excluded by the rules but was removed from the bundle package", "bundle.reinclude-below-excluded-dir")
 						}
 					}
+				}
+				// the same tree once more under a mirror address (the two packages coalesce into one
+				// directory): still no temporary directory afterwards (seed C10-c)
+				f.noSnap = true
+				mirror, _ := sourceaddrs.ParseRemotePackage("git::https://mirror.example.com/pkg.git")
+				done2 := make(chan sourcebundle.Diagnostics, 1)
+				go func() {
+					defer func() {
+						if x := recover(); x != nil {
+							done2 <- nil
+						}
+					}()
+					done2 <- b.AddRemoteSource(context.Background(), mirror.SourceAddr(""), env.finders[0])
+				}()
+				select {
+				case d2 := <-done2:
+					if !d2.HasErrors() {
+						rep.Count("mirror:ok")
+						ents, _ := os.ReadDir(target)
+						for _, e := range ents {
+							if strings.HasPrefix(e.Name(), ".tmp-") {
+								fail("C10", "temporary directory left after a second, identical package was added under another address: "+e.Name(), "")
+							}
+						}
+					} else {
+						rep.Count("mirror:fail")
+					}
+				case <-time.After(20 * time.Second):
 				}
 			}(i)
 		}
